@@ -30,6 +30,7 @@ fn cases(_ob: &str) -> Vec<String> {
     for i in 0..good_texts().len() { out.push(format!("good:{}", i)); }
     for i in 0..values().len() { out.push(format!("print:{}", i)); }
     for i in 0..6 { out.push(format!("sweep:{}", i)); }
+    for i in 0..8 { out.push(format!("names:{}", i)); }
     out
 }
 /// inputs whose ill-formed part sits in a second datum are legitimately accepted by a one-shot reader? No: trailing text is an error; nothing is exempt
@@ -87,6 +88,30 @@ fn check(case: &str) -> Option<String> {
                 let (bytes, s) = match &o { None => (lexpr::to_vec(&v).ok()?, lexpr::to_string(&v).ok()?), Some(o) => (lexpr::to_vec_custom(&v, *o).ok()?, lexpr::to_string_custom(&v, *o).ok()?) };
                 if std::str::from_utf8(&bytes).is_err() { return Some(format!("printing {:?} writes bytes that are not UTF-8", v)); }
                 if s.as_bytes() != &bytes[..] { return Some(format!("to_string and to_vec disagree on {:?}", v)); }
+            }
+            None
+        }
+        "names" => {
+            // every scalar from U+0080 to U+3FFF (every lead / continuation byte value occurs), and samples above, inside a symbol, a keyword and a string
+            // read from a &str (the source that cuts `str`s out of its input without re-validating them): the name comes back whole and well-formed
+            let mut ns: Vec<u32> = (0x80 + i as u32 * 0x7f0..0x80 + (i as u32 + 1) * 0x7f0).collect();
+            ns.extend((0..64u32).map(|k| 0x4000 + (i as u32 * 64 + k) * 0x83));
+            ns.extend((0..32u32).map(|k| 0x10000 + (i as u32 * 32 + k) * 0x1041));
+            for n in ns {
+                let c = match char::from_u32(n) { Some(c) => c, None => continue };
+                if c.is_whitespace() && false { continue; }
+                for o in [Options::default(), Options::elisp()] {
+                    let name = format!("ab{}cd", c);
+                    for (text, want) in [(name.clone(), Value::symbol(name.clone())), (format!("#:{}", name), Value::keyword(name.clone())), (format!("({} x)", name), Value::list(vec![Value::symbol(name.clone()), Value::symbol("x")])), (format!("\"{}\"", name), Value::string(name.clone()))] {
+                        if text.starts_with("#:") && !o.keyword_syntax(lexpr::parse::KeywordSyntax::Octothorpe) { continue; }
+                        match lexpr::from_str_custom(&text, o.clone()) {
+                            Ok(v) => { if !strs_ok(&v) { return Some(format!("{:?} (U+{:04X}) read from a &str: a value with ill-formed UTF-8 in a str was returned", text, n)); }
+                                       if v != want { return Some(format!("{:?} (U+{:04X}) read from a &str gives {:?}", text, n, v)); } }
+                            Err(e) => return Some(format!("{:?} (U+{:04X}) read from a &str fails: {}", text, n, e)),
+                        }
+                        match lexpr::from_slice_custom(text.as_bytes(), o.clone()) { Ok(v) if v == want => {}, r => return Some(format!("{:?} (U+{:04X}) read from a byte slice gives {:?}", text, n, r.map_err(|e| e.to_string()))) }
+                    }
+                }
             }
             None
         }
